@@ -11,7 +11,7 @@ from ..absval import UNKNOWN, Evaluator, walk
 from ..astutil import call_name, calls_in, kwarg, unparse
 from ..cfg import CFG, LocalDefs, path_text
 from ..index import AnalysisError, FuncInfo
-from ..inventory import recv_class
+from ..inventory import call_sites, recv_class
 from ..report import Ctx
 from ..reqtree import RequestTree, Router, action_routes
 from .common import node_calls, state_test
@@ -30,7 +30,8 @@ EXPLANATION = (
     "action's static route; R11.5 the mask is a function of the state the action will meet: check_valid stores nothing "
     "and calls no mutator (no verdict memo), action_mask writes only mask entries, every simulator pre_timestep (which "
     "runs between mask and action) and its helpers store no attribute a permission rule reads and call no life-cycle "
-    "operation, and PrimaiteGymEnv.step applies the actions before advancing time. NOT decided: agreement as a run-time behaviour in every transitional state (follows from "
+    "operation, and PrimaiteGymEnv.step applies the actions before advancing time; R11.6 no sub-tree is registered through a forwarding "
+    "callable (`func=<component>.apply_request`): the dry run descends into RequestManager objects only. NOT decided: agreement as a run-time behaviour in every transitional state (follows from "
     "R11.1 given validators are pure state predicates, R5.3)."
 )
 TECHNIQUE = "static: exhaustive truth table of check_valid vs __call__ over (key, validator, sub-manager, sub-tree), structural check of mask construction, validator predicate tables"
@@ -444,6 +445,43 @@ def r11_5(ctx: Ctx) -> None:
 
 
 
+FORWARDING_OK = {
+    "DomainController._init_request_manager": "the 'domain account <uuid>' branch: no action of the action map forms a request under 'domain' "
+                                              "(C05 R5.4 action routes), Account objects register no permission rules, and the controller "
+                                              "holds no accounts in any scenario - nothing the mask speaks about passes through it",
+}
+
+
+def r11_6(ctx: Ctx) -> None:
+    """check_valid descends only into RequestManager objects.  A sub-tree registered through a bound method that merely forwards
+    (`func=component.apply_request`) executes exactly like the manager, but the dry run stops there and answers True: the guards
+    below it (application is running, ...) are invisible to the mask."""
+    ix = ctx.ix
+    ctx.rule("R11.6", "every registered request target is a RequestManager (descended by the dry run) or a leaf handler; no sub-tree "
+                      "is registered through a forwarding callable such as `<component>.apply_request`")
+    n = 0
+    for cs in call_sites(ix, ["RequestType"]):
+        f = kwarg(cs.call, "func", 0)
+        if f is None:
+            continue
+        n += 1
+        fwd = None
+        if isinstance(f, ast.Attribute) and f.attr in ("apply_request", "__call__"):
+            fwd = unparse(f)
+        elif isinstance(f, ast.Lambda) and any(isinstance(c, ast.Call) and call_name(c) in ("apply_request",) or (
+                isinstance(c, ast.Call) and isinstance(c.func, ast.Attribute) and c.func.attr == "_request_manager") for c in ast.walk(f.body)):
+            fwd = unparse(f)[:60]
+        if fwd is not None and cs.owner in FORWARDING_OK:
+            ctx.ok("R11.6", f"{cs.path}::{cs.owner}::RequestType(func={unparse(f)[:50]})", cs.where, FORWARDING_OK[cs.owner])
+            continue
+        ctx.record("R11.6", f"{cs.path}::{cs.owner}::RequestType(func={unparse(f)[:50]})", cs.where, fwd is None,
+                   "a manager or a leaf handler" if fwd is None else
+                   f"`{fwd}` forwards into another component's request tree through a plain callable: execution applies that component's "
+                   "permission rules, the dry run cannot see them and marks the action available")
+    ctx.floor("R11.6", "RequestType(...) constructions", n, 100)
+
+
+
 def check(ctx: Ctx) -> None:
     r11_5(ctx)
     try:
@@ -454,5 +492,6 @@ def check(ctx: Ctx) -> None:
             raise
         ctx.note("R11.1 not evaluated: check_valid is not a pure function of (request, state) - see R11.5")
     r11_2(ctx)
+    r11_6(ctx)
     r11_4(ctx)
     r11_3(ctx)
